@@ -23,7 +23,7 @@ are counted as undecided (listed in the evidence), never as violations.
 """
 from .lin import LinAnalysis, Lin, Ptr, ObjPtr, Region, State, Frame, FM_STATS
 from .core import Result, Broken, norm
-from .facts import show
+from .facts import show, strip, callee_name
 
 QUEUE_RECORDS = ("mpt_queue", "mpt::queue")
 
@@ -504,7 +504,30 @@ def entry_points(prog, files):
             if e.get("k") == "call" and e.get("fn"):
                 for g in prog.resolve_call(f, e):
                     called.add(g.key())
-    return [f for f in funcs if not f.static or f.key() not in called]
+    # file-local functions whose address is taken (members of an interface table) are reached from outside as well, even
+    # when a sibling also calls them directly
+    taken = set()
+    names = {f.name for f in funcs if f.static}
+    from .facts import walk as _walk
+
+    def refs(tree, skip):
+        for n in _walk(tree):
+            if n.get("k") == "ref" and n.get("d", {}).get("dk") == "fn" and n["d"].get("n") in names and id(n) not in skip:
+                taken.add(n["d"]["n"])
+    for f in funcs:
+        skip = set()
+        for b, i, n in f.walk_all():
+            if n.get("k") == "call" and n.get("callee") is not None:
+                c = strip(n["callee"], all_casts=True)
+                if c.get("k") == "ref":
+                    skip.add(id(c))
+        for b, i, e in f.elements():
+            refs(e, skip)
+    fs = set(files)
+    for u, g in prog.globals:
+        if g.get("file") in fs and g.get("init") is not None:
+            refs(g["init"], set())
+    return [f for f in funcs if not f.static or f.key() not in called or f.name in taken]
 
 
 class FRef:
@@ -547,6 +570,90 @@ def _merge_obls(an, f, agg, undecided, stats):
             agg[key] = [False, FRef(o.func), o.line, "%s (entry point %s, call chain %s)" % (o.detail, f.name, " > ".join(o.chain)), True]
 
 
+def _fini_target(an, st, fr, call):
+    """(owner object, prefix, offset, element size, used) for a call `fini(ptr + pos)` into the data of a buffer object"""
+    ce = strip(call["callee"], all_casts=True)
+    nm = ce.get("f") if ce.get("k") == "mem" else (ce.get("d", {}).get("n") if ce.get("k") == "ref" else None)
+    if nm != "fini" or len(call.get("args", [])) != 1:
+        return None
+    an.noeffect += 1
+    try:
+        p = an.ev(call["args"][0], st, fr)
+    finally:
+        an.noeffect -= 1
+    if not isinstance(p, Ptr) or p.region is None:
+        return None
+    own = st.env.get(("powner", p.region.id))
+    if own is None:
+        return None
+    used = st.env.get(("f", own[0], own[1] + "_used"))
+    # element size: the local this function loaded from `<traits>->size`
+    f = fr.f
+    ids = getattr(f, "_esize_locals", None)
+    if ids is None:
+        ids = set()
+        for b_, i_, n in f.walk_all():
+            src = None
+            if n.get("k") == "bin" and n.get("op") == "=":
+                l = strip(n["a"], lvalue_to_rvalue=False)
+                if l.get("k") == "ref" and "id" in l["d"]:
+                    src = (l["d"]["id"], strip(n["b"], all_casts=True))
+                    if src[1].get("k") == "mem" and src[1].get("f") == "size":
+                        ids.add(src[0])
+            elif n.get("k") == "decl":
+                for v in n.get("vars", []):
+                    if v.get("init") is not None:
+                        r = strip(v["init"], all_casts=True)
+                        if r.get("k") == "mem" and r.get("f") == "size":
+                            ids.add(v["id"])
+        f._esize_locals = ids
+    vals = [st.env.get(("v", fr.id, i)) for i in ids]
+    vals = [v for v in vals if isinstance(v, Lin)]
+    size = vals[0] if len(vals) == 1 else None
+    if not isinstance(used, Lin) or not isinstance(size, Lin):
+        return None
+    return own, p.off, size, used
+
+
+def fini_call_hook(an, st, fr, call, args):
+    """FINIIN: what is handed to the element finalizer is a complete element of the used part"""
+    t = _fini_target(an, st, fr, call)
+    if t is None:
+        return
+    own, off, size, used = t
+    ok = st.entails(off) and st.entails(used - off - size)
+    an.oblige("FINIIN", fr, call, ok, "" if ok else "finalizer called for [%r, +%r) of the data of %s whose used part is %r bytes; path: %s" % (
+        off, size, own[0], used, " / ".join(st.trail[-8:])), st)
+
+
+def fini_exit_hook(an, st, fr, head, src, dst):
+    """FINICOVER: where a function that releases the buffer leaves its finalizer loop, no complete element of the used part is left"""
+    f = fr.f
+    info = getattr(f, "_fini_loops", None)
+    if info is None:
+        info = {}
+        frees = any(n.get("k") == "call" and callee_name(n) == "free" for b, i, n in f.walk_all())
+        if frees:
+            for h, body in f._lin_loops.items():
+                for bid in body:
+                    for el in f.blocks[bid].el:
+                        if el.get("k") == "call" and el.get("callee") is not None and not el.get("fn"):
+                            ce = strip(el["callee"], all_casts=True)
+                            if (ce.get("f") if ce.get("k") == "mem" else ce.get("d", {}).get("n")) == "fini":
+                                info[h] = el
+        f._fini_loops = info
+    call = info.get(head)
+    if call is None:
+        return
+    t = _fini_target(an, st, fr, call)
+    if t is None:
+        return
+    own, off, size, used = t
+    ok = st.entails(off + size - used - Lin.const(1))
+    an.oblige("FINICOVER", fr, call, ok, "" if ok else "the finalizer loop is left at offset %r with %r bytes used in %s (element size %r): a complete element may remain, and the buffer is freed; path: %s" % (
+        off, used, own[0], size, " / ".join(st.trail[-8:])), st)
+
+
 def _buf_root(i):
     prog, roots, fileset = _G["prog"], _G["roots"], _G["fileset"]
     f = roots[i]
@@ -564,6 +671,8 @@ def _buf_root(i):
         an.post = {"_mpt_buffer_alloc": post_buffer_alloc}
     # the C++ wrappers go through small inline methods of the headers (reference<T>::instance(), content::data() ..)
     an.policy = (lambda fr, g: "inline" if (g.file in fileset or (cxx and g.file.endswith(".h"))) else "modular")
+    an.indirect_hook = fini_call_hook
+    an.exit_hook = fini_exit_hook
     import time as _t
     t0 = _t.time()
     entry, fr, outs = an.analyse_root(f)
@@ -733,6 +842,84 @@ def run_linbuf(prog, ctx=None):
     agg = _collect(res, parts)
     if "LIN:_mpt_buffer_alloc:POST" not in agg:
         raise Broken("LINBUF: allocation contract has no implementation to check (_mpt_buffer_alloc)")
+    return res
+
+
+def dead_map_constructor(prog):
+    """_mpt_buffer_map() refuses every call as long as its page size variable starts as 0 and is only assigned behind
+    `!_mpt_buffer_map_psize ||` (the assignment runs only when the variable is non-zero already).  Returns the reason text
+    when that is the shape of the code, else None (then the mapped buffer's functions are analysed like the others)."""
+    gv = prog.global_var("_mpt_buffer_map_psize", "mptcore/array/buffer_map.c")
+    if gv is None or gv[1].get("init") is None:
+        return None
+    from .facts import cval as _cval, walk as _walk
+    if _cval(gv[1]["init"]) != 0:
+        return None
+    guarded, stores = set(), []
+    for f in prog.by_file.get("mptcore/array/buffer_map.c", []):
+        trees = []
+        for bid, blk in f.blocks.items():
+            trees.extend(blk.el)
+            if blk.term and isinstance(blk.term.get("cond"), dict):
+                trees.append(blk.term["cond"])
+        for n in (m for t in trees for m in _walk(t)):
+            if n.get("k") == "bin" and n.get("op") == "||":
+                a = strip(n["a"], all_casts=True)
+                if a.get("k") == "un" and a.get("op") == "!":
+                    x = strip(a["e"], all_casts=True)
+                    if x.get("k") == "ref" and x["d"].get("n") == "_mpt_buffer_map_psize":
+                        for m in _walk(n["b"]):
+                            if m.get("k") == "bin" and m.get("op") == "=":
+                                guarded.add((m.get("l"), show(m, f)))
+            if n.get("k") == "bin" and n.get("op", "").endswith("=") and n["op"] not in ("==", "!=", "<=", ">="):
+                l = strip(n["a"], lvalue_to_rvalue=False)
+                if l.get("k") == "ref" and l["d"].get("n") == "_mpt_buffer_map_psize":
+                    stores.append((n.get("l"), show(n, f)))
+            if n.get("k") == "un" and n.get("op") == "&":
+                x = strip(n["e"], lvalue_to_rvalue=False)
+                if x.get("k") == "ref" and x["d"].get("n") == "_mpt_buffer_map_psize":
+                    return None
+    if not stores or not all(n in guarded for n in stores):
+        return None
+    return ("_mpt_buffer_map_psize is 0 initially and its %d assignments all sit behind `!_mpt_buffer_map_psize ||`: they never run, "
+            "_mpt_buffer_map() returns 0 for every call and no memory-mapped buffer exists" % len(stores))
+
+
+def run_linfini(prog, ctx=None):
+    """LINFINI (C05, C15): the FINIIN / FINICOVER obligations of the buffer analysis alone, for the entry points of the array
+    files that call an element finalizer"""
+    res = Result("LINFINI")
+    files = sorted(x for x in prog.by_file if x.startswith("mptcore/array/") and x.endswith(".c"))
+
+    def has_fini(f):
+        for b, i, n in f.walk_all():
+            if n.get("k") == "call" and n.get("callee") is not None and not n.get("fn"):
+                ce = strip(n["callee"], all_casts=True)
+                if (ce.get("f") if ce.get("k") == "mem" else ce.get("d", {}).get("n")) == "fini":
+                    return True
+        return False
+    roots = sorted([f for f in entry_points(prog, files) if has_fini(f)], key=lambda f: (f.file, f.line))
+    dead = dead_map_constructor(prog)
+    if dead:
+        # the interface functions of the memory-mapped buffer cannot be reached: no such buffer can be created (see the note)
+        roots = [f for f in roots if f.file != "mptcore/array/buffer_map.c"]
+        res.notes.append({"not_analysed": "mptcore/array/buffer_map.c", "reason": dead})
+    if len(roots) < 3:
+        raise Broken("LINFINI: only %d entry points with a finalizer call in the array files" % len(roots))
+    _G.update(prog=prog, roots=roots, fileset=set(files))
+    parts = _parallel(_buf_root, len(roots))
+    sub = Result("x")
+    agg = _collect(sub, parts)
+    n = 0
+    for o in sub.obs:
+        if ":FINIIN:" in o.key or ":FINICOVER:" in o.key:
+            o.key = "LINFINI:" + o.key.split(":", 1)[1]
+            o.rule = "LINFINI"
+            res.obs.append(o)
+            n += 1
+    res.notes.extend(sub.notes)
+    if not any(":FINICOVER:" in o.key for o in res.obs):
+        raise Broken("LINFINI: no finalizer loop of a releasing function was reached")
     return res
 
 
@@ -1216,6 +1403,29 @@ def _node_root(i):
                     det = "at return %s%s->%s is %s, but that node's ->%s is %s (path %s)" % (obj, ("." + pre) if pre else "", fld, val, NODE_LINKS[fld], back, " / ".join(st.trail[-8:]))
     if n:
         agg["LIN:%s:LINKPAIR" % f.name] = [ok, FRef(f), f.line, det, True]
+    # NOREF: a node the function cut loose (parent, next and prev all null at return, at least one of them cleared here) is
+    # no longer the child / next / prev of any node the function looked at
+    ok, det, n = True, "", 0
+    isnull = lambda v: isinstance(v, Ptr) and v.region is None
+    for st, v in outs:
+        loose = set()
+        for k in st.env:
+            if k[0] == "stored" and k[2].rsplit(".", 1)[-1] in ("parent", "next", "prev"):
+                obj, pre = k[1], k[2][:-len(k[2].rsplit(".", 1)[-1])]
+                if all(isnull(st.env.get(("f", obj, pre + fl))) for fl in ("parent", "next", "prev")):
+                    loose.add((obj, pre))
+        for (obj, pre) in loose:
+            n += 1
+            for k, val in st.env.items():
+                if k[0] == "f" and k[2].rsplit(".", 1)[-1] in ("children", "next", "prev") and isinstance(val, ObjPtr) and not val.maybe_null \
+                        and (val.obj, val.prefix) == (obj, pre) and k[1] != obj:
+                    if st.joined:
+                        undecided.add("LIN:%s:NOREF" % f.name)
+                    elif ok:
+                        ok = False
+                        det = "at return %s has no parent, next or prev any more, but %s.%s still points to it (path %s)" % (obj, k[1], k[2], " / ".join(st.trail[-8:]))
+    if n:
+        agg["LIN:%s:NOREF" % f.name] = [ok, FRef(f), f.line, det, True]
     return {"agg": agg, "undecided": undecided, "stats": stats, "assumed": an.assumed, "cut": None}
 
 
